@@ -814,8 +814,89 @@ def dist_search(cls_name, want_exc=None):
     return None
 
 
+def nan_parameter_probe():
+    """Known-finding witness: a NaN parameter is outside every documented domain; which constructors accept it?"""
+    import pydsol.core.distributions as D
+    from pydsol.core.streams import MersenneTwister
+    nan = float("nan")
+    accepted = []
+    for name, grid in sorted(DIST_GRID.items()):
+        cls = getattr(D, name)
+        base = list(grid[-1])
+        for i, v in enumerate(base):
+            if isinstance(v, int) and not isinstance(v, bool) and name in ("DistBinomial", "DistDiscreteUniform", "DistErlang", "DistNegBinomial") \
+                    and isinstance(base[i], int):
+                continue        # integer parameters cannot be NaN
+            if name == "DistConstant" or (name in ("DistNormal", "DistLogNormal") and i == 0):
+                continue        # parameters without a documented bound (any number): NaN is not "outside a domain"
+            args = list(base)
+            args[i] = nan
+            try:
+                cls(MersenneTwister(1), *args)
+                accepted.append("%s%r" % (name, tuple(args)))
+            except (ValueError, TypeError):
+                pass
+    if accepted:
+        return {"accepted": accepted, "failure": "NaN parameter accepted at construction by: %s" % ", ".join(accepted)}
+    return None
+
+
+def ctor_domain_search(cls_name):
+    """Boundary probe of a constructor's documented domain (used when a constructor obligation is left open)."""
+    import pydsol.core.distributions as D
+    from pydsol.core.streams import MersenneTwister
+    DOMAIN = {
+        "DistBernoulli": lambda p: 0 <= p[0] <= 1, "DistBinomial": lambda p: p[0] > 0 and 0 <= p[1] <= 1,
+        "DistDiscreteUniform": lambda p: p[0] < p[1], "DistConstant": lambda p: True, "DistExponential": lambda p: p[0] > 0,
+        "DistGamma": lambda p: p[0] > 0 and p[1] > 0, "DistPoisson": lambda p: p[0] > 0,
+        "DistTriangular": lambda p: p[0] <= p[1] <= p[2] and p[0] != p[2], "DistUniform": lambda p: p[0] < p[1],
+        "DistWeibull": lambda p: p[0] > 0 and p[1] > 0, "DistNormal": lambda p: p[1] > 0, "DistLogNormal": lambda p: p[1] > 0,
+    }
+    if cls_name not in DOMAIN or cls_name not in DIST_GRID:
+        return None
+    cls = getattr(D, cls_name)
+    base = list(DIST_GRID[cls_name][-1])
+    vals = [-1.0, 0.0, 0.5, 1.0, 1.0 + 2.0 ** -52, 2.0, 7.5, float("nan")]
+    for i in range(len(base)):
+        for v in vals:
+            args = list(base)
+            if isinstance(base[i], int):
+                if v != v or int(v) != v:
+                    continue
+                args[i] = int(v)
+            else:
+                if v != v and (cls_name == "DistConstant" or (cls_name in ("DistNormal", "DistLogNormal") and i == 0)):
+                    continue        # no documented bound for this parameter
+                args[i] = v
+            inside = DOMAIN[cls_name](args)
+            try:
+                d = cls(MersenneTwister(1), *args)
+                ok = True
+            except ValueError:
+                ok = False
+            except Exception as e:
+                return {"class": cls_name, "parameters": args, "failure": "constructor raised %s: %s" % (type(e).__name__, e)}
+            if ok != inside:
+                return {"class": cls_name, "parameters": args,
+                        "failure": "%s%r was %s; the documented domain says %s" % (cls_name, tuple(args), "accepted" if ok else "rejected",
+                                                                                "inside" if inside else "outside")}
+            if ok:
+                try:
+                    d.draw()
+                except Exception as e:
+                    return {"class": cls_name, "parameters": args, "failure": "accepted parameters but draw() raised %s: %s" % (type(e).__name__, e)}
+    return None
+
+
 @replayer(r"(Dist\w+|Distribution)\.(draw|_next_gaussian|_set_stream|__init__|stream@setter)")
 def replay_dist(rec):
+    if rec.get("obligation") == "witness-nan-parameters":
+        f = nan_parameter_probe()
+        return {"reproduced": bool(f), "input": f, "observed": f["failure"] if f else None, "note": "every NaN parameter is rejected"}
+    if rec["function"].endswith(".__init__"):
+        f = ctor_domain_search(rec["function"].split(".")[0])
+        if f:
+            return {"reproduced": True, "input": f, "observed": f["failure"]}
     cls_name = rec["function"].split(".")[0]
     want = exc_class_of(rec) if rec.get("obligation", "").startswith("noexc") else None
     names = [cls_name] if cls_name in DIST_GRID else list(DIST_GRID)
